@@ -482,3 +482,8 @@ Example C05_window_example :
   c05_window false [[94; 67; 13; 10]; line; firstn 20 line2; skipn 20 line2]
   = ([Detector.replace_all Consts.det_client_old Consts.det_client_new line], 1%nat).
 Proof. vm_compute. reflexivity. Qed.
+
+(* the UploadFiles API as the model's EvApiUpload has it, regenerated from filter.go *)
+Theorem C05_skel_api : upload_files_api = expected_upload_files_api.
+Proof. exact skel_matches_api. Qed.
+Print Assumptions C05_skel_api.
